@@ -403,7 +403,13 @@ def apply_edit(nb, op, rnd, where=None):
             else:
                 c['outputs'].append(nbformat.from_dict(out_stream('fresh\n')))
     elif op == 'metadata_flag':
-        cells[i]['metadata']['collapsed'] = not cells[i]['metadata'].get('collapsed', False)
+        md = cells[i]['metadata']
+        if 'collapsed' in md and rnd.random() < 0.3:
+            del md['collapsed']                  # a newer front end drops the legacy view-state key altogether
+        elif rnd.random() < 0.25:
+            md['scrolled'] = rnd.choice([v for v in (True, False, 'auto') if not (type(v) is type(md.get('scrolled')) and v == md.get('scrolled'))])
+        else:
+            md['collapsed'] = not md.get('collapsed', False)
     elif op == 'metadata_tags':
         tags = list(cells[i]['metadata'].get('tags', []))
         new = [t for t in ['t1', 't2', 'hide', 'a', 'b'] if t not in tags]
@@ -522,6 +528,11 @@ def triples(seed, count, maxcells=3, minors=(5, 4, 2), max_edits=2, ops=None):
             if t is not None:
                 yield t
                 continue
+        if ops is None and u < 0.84:
+            t = transient_key_triple(b, rnd)
+            if t is not None:
+                yield t
+                continue
         common = b
         if rnd.random() < 0.3:
             # changes made identically on both sides (agreement), e.g. the same cell inserted by both
@@ -603,6 +614,22 @@ def concurrent_tags_triple(b, rnd):
         lt, rt = rt, lt
     l['cells'][i]['metadata']['tags'] = lt
     r['cells'][i]['metadata']['tags'] = rt
+    return base, l, r
+
+
+def transient_key_triple(b, rnd):
+    "one side changes a view-state key of a cell's metadata (collapsed / scrolled), the other side removes the key"
+    if not b['cells']:
+        return None
+    i = rnd.randrange(len(b['cells']))
+    key = rnd.choice(['collapsed', 'scrolled'])
+    base = copy.deepcopy(b)
+    base['cells'][i]['metadata'][key] = True
+    l, r = copy.deepcopy(base), copy.deepcopy(base)
+    l['cells'][i]['metadata'][key] = False if key == 'collapsed' else 'auto'
+    del r['cells'][i]['metadata'][key]
+    if rnd.random() < 0.5:
+        l, r = r, l
     return base, l, r
 
 
